@@ -57,7 +57,7 @@ def text(parts: List[Any]) -> T.Term:
 
 
 def run(prog: Program, rep: Report, tier: str) -> None:
-    rep.rule("R15.1", "MODE_TO_COMMAND/COMMAND_TO_MODE and FAN_LEVEL_TO_COMMAND/COMMAND_TO_FAN_LEVEL are mutually inverse and total over their enums", 2)
+    rep.rule("R15.1", "MODE_TO_COMMAND/COMMAND_TO_MODE and FAN_LEVEL_TO_COMMAND/COMMAND_TO_FAN_LEVEL are mutually inverse and total over their enums", 2, structural=True)
     rep.rule("R15.2", "key grammar and fallback per path: the key is ('on_')? mode (temp)? '_'fan ('_d1')? (or 'off'); lookups try the full key, then without swing, then without fan, ... down to one part, test membership in the same map the final lookup reads, and use the first hit", 100)
     rep.rule("R15.4", "clamp before use: the temperature in the key is max when target > max, min when target < min, else the target", 30)
     rep.rule("R15.5", "unsupported mode raises RuntimeError before any IR lookup", 10)
@@ -80,8 +80,9 @@ def run(prog: Program, rep: Report, tier: str) -> None:
     fan_tab = tuple((("enum", k), c(v)) for k, v in f2c.items())
     fan_atom = ("txt", ("lookup", fan_tab, fan_sym))
     temps = {"max": ("fmt", "d", ("sym", "max_temp", "int")), "min": ("fmt", "d", ("sym", "min_temp", "int")), "mid": ("fmt", "d", ("sym", "target_temp", "int"))}
-    t_gt = ("cmp", ">", ("sym", "target_temp", "int"), ("sym", "max_temp", "int"))
-    t_lt = ("cmp", "<", ("sym", "target_temp", "int"), ("sym", "min_temp", "int"))
+    from ..interp import mkcmp
+    t_gt = mkcmp(">", ("sym", "target_temp", "int"), ("sym", "max_temp", "int"))
+    t_lt = mkcmp("<", ("sym", "target_temp", "int"), ("sym", "min_temp", "int"))
     fi0 = None
     bad_counts: Dict[str, int] = {}
     first_bad: Dict[str, Tuple[str, str]] = {}
